@@ -70,7 +70,13 @@ def _noaddr(s):
     """object addresses and generated function names are not behaviour"""
     import re
     s = re.sub(r" at 0x[0-9a-fA-F]+", " at 0x?", s)
-    return re.sub(r"<function [^>]*?( at 0x\?)?>", "<function>", s)
+    s = re.sub(r"<function \S+ at 0x\?>", "<function>", s)
+    s = re.sub(r"<function [^>]*?( at 0x\?)?>", "<function>", s)
+    # qualified names are metadata (a function is a lambda, a class body a lambda in the converted program)
+    s = re.sub(r"<generator object \S+ at 0x\?>", "<generator object>", s)
+    s = re.sub(r"<(?:[\w<>]+\.)+(\w+) object", r"<\1 object", s)
+    s = re.sub(r"<class '(?:[\w<>]+\.)+(\w+)'>", r"<class '\1'>", s)
+    return s
 
 
 HELPER_OK = ("__ol_", "itertools", "importlib", "__builtins__")
